@@ -281,6 +281,12 @@ func (fc *fileCtx) instrument() {
 			fc.replaced[local] = local + ".Locker"
 			fc.usesSim = true
 			fc.n.mutexes++
+		case path == "sync" && sel.Sel.Name == "Pool":
+			// sync.Pool hands objects out depending on which P a goroutine runs on: a free list with a
+			// fixed order keeps a tree that uses one replayable
+			fc.r.add(fc.off(sel.Pos()), fc.off(sel.End()), func(*renderer) string { return "simrt.Pool" })
+			fc.replaced[local] = local + ".Locker"
+			fc.usesSim = true
 		case path == "net" && (sel.Sel.Name == "Listen" || sel.Sel.Name == "ListenPacket" || sel.Sel.Name == "DialTimeout"):
 			name := sel.Sel.Name
 			fc.r.add(fc.off(sel.Pos()), fc.off(sel.End()), func(*renderer) string { return "simrt.Net" + name })
